@@ -398,7 +398,7 @@ def drivers(ctx, need_plain=False):
     core.KINDS['fuzz-c12'] = (cc, cf + ['-fno-sanitize=pointer-overflow'], ld)
     defs = ['-DC12_FIXED_DIR="%s"' % fx]
     d = dict(fuzz=ctx.driver('c12_fuzz', ['c12_fuzz.c', 'c12_mutator.c'], kind='fuzz-c12', extra_cflags=defs),
-             replay=ctx.driver('c12_replay', ['c12_fuzz.c', 'c12_replay.c'], kind='asan', wraps=['malloc', 'calloc', 'free'], extra_cflags=defs))
+             replay=ctx.driver('c12_replay', ['c12_fuzz.c', 'c12_replay.c'], kind='asan', wraps=['malloc', 'calloc', 'free'], extra_cflags=defs + ['-DC12_PKI_VERIFY']))
     if need_plain:
         d['plain'] = ctx.driver('c12_replay_plain', ['c12_fuzz.c', 'c12_replay.c'], kind='plain', extra_cflags=defs + ['-DC12_NO_WRAP'])
     return d
@@ -414,8 +414,22 @@ def report(ctx, findings):
         ctx.violation(key, what, replay=bytes(w), replay_ext='bin')
 
 
+def _replay_env(ctx):
+    """the replay driver also PKI-verifies publications files: OpenSSL leaks inside PKCS7_verify on corrupted blobs (see C18), which
+    can only be told from SDK leaks with full unwinding"""
+    base = ctx.env
+
+    def env(**kw):
+        e = base(**kw)
+        e['ASAN_OPTIONS'] = e.get('ASAN_OPTIONS', '') + ':fast_unwind_on_malloc=0'
+        e['LSAN_OPTIONS'] = e.get('LSAN_OPTIONS', '') + ':suppressions=%s:print_suppressions=0' % os.path.join(core.VERIF, 'harness', 'lsan.supp')
+        return e
+    ctx.env = env
+
+
 def run(ctx):
     quick = ctx.tier == 'quick'
+    _replay_env(ctx)
     exe = drivers(ctx, need_plain=not quick)
     ctx.rule = ('input = selector byte (entry point, recycle-pool mode, DEBUG logging, variant) + payload of 0..70000 bytes in an exactly sized heap '
                 'block. Seeds: repository samples (test/resource/tlv, tlv/v2, publications, test_pack) per matching entry point, text seeds, committed '
